@@ -42,6 +42,12 @@ Theorem C32_base58_invalid : forall s, ~ over_alphabet s -> decode s = [].
 Proof. exact decode_invalid. Qed.
 Print Assumptions C32_base58_invalid.
 
+(* Go's Decode ranges over runes and refuses every rune >= 128 and invalid UTF-8;
+   on the UTF-8 bytes of the text that is: a byte >= 128 anywhere => empty result. *)
+Theorem C32_base58_non_ascii : forall s, Exists (fun c => (128 <= c)%N) s -> decode s = [].
+Proof. exact decode_non_ascii. Qed.
+Print Assumptions C32_base58_non_ascii.
+
 (* ---- addresses ------------------------------------------------------------------------ *)
 
 (* Any accepted address text prints back identically. *)
@@ -49,6 +55,13 @@ Theorem C32_address_canonical : forall (H : list N -> list N) (check_key : list 
   of_string H check_key s = Ok a -> to_string H a = s.
 Proof. exact address_canonical. Qed.
 Print Assumptions C32_address_canonical.
+
+(* An accepted address text is the prefix followed by alphabet characters: pure ASCII. *)
+Theorem C32_address_accepted_ascii : forall (H : list N -> list N) (check_key : list N -> bool) s a,
+  of_string H check_key s = Ok a ->
+  exists body, s = prefix ++ body /\ over_alphabet body /\ Forall (fun c => (c < 128)%N) s.
+Proof. exact address_accepted_ascii. Qed.
+Print Assumptions C32_address_accepted_ascii.
 
 (* A printed address of two valid keys parses back to the same keys. *)
 Theorem C32_address_roundtrip : forall (H : list N -> list N) (check_key : list N -> bool),
